@@ -646,6 +646,181 @@ func Run(r *evid.Run) {
 	r.Bound("documents: every interesting (valid, viable or first-error-at-last-byte) string of the views; <=%d bytes: all 2^(n-1) cut sets x 4 styles x all programs of <=%d ops; <=%d bytes: <=2 cuts + one-byte reader x 4 styles x programs with <=%d deviations (length %d); single faults before every Read call x 3 reader shapes x programs with <=1 deviation", exhLen, exhProg, bndLen, bndDev, bndProg)
 	boundarySweeps(r)
 	unmarshalRoutes(r)
+	SparsePointers(r, "c05")
+	surrogateSplits(r)
+}
+
+// SparsePointers: StackPointer itself forces the decoder to copy pending member names, so observing it
+// after every call can mask stale-name bugs. Here nothing is observed until N calls have been made:
+// for every N the pointer then reported (and the error pointer of every truncation of the document)
+// must equal the reference model's / the whole-input decoder's.
+func SparsePointers(r *evid.Run, keyPrefix string) {
+	var docs []string
+	mk := func(n int, pad int) string {
+		var sb strings.Builder
+		sb.WriteString(`{"outer":{`)
+		for i := 0; i < n; i++ {
+			if i > 0 {
+				sb.WriteByte(',')
+			}
+			fmt.Fprintf(&sb, `"k%02d%s":[%d,{"in%d":"v"}]`, i, strings.Repeat("x", pad), i, i)
+		}
+		sb.WriteString(`},"tail":[1,2]}`)
+		return sb.String()
+	}
+	sizes := []int{8, 16, 24}
+	if r.Tier == "thorough" {
+		sizes = []int{8, 16, 24, 40, 80, 160, 330}
+	}
+	for _, n := range sizes {
+		docs = append(docs, mk(n, 0), mk(n, 5))
+	}
+	docs = append(docs, `[`+mk(10, 1)+`,`+mk(12, 0)+`]`)
+	type unit struct {
+		doc   int
+		chunk int
+	}
+	var units []unit
+	for d := range docs {
+		for _, c := range []int{0, 1, 7, 61} {
+			units = append(units, unit{d, c})
+		}
+	}
+	enum.Parallel(r, len(units), func(w *enum.Worker) func(int) {
+		var cur Case
+		w.Describe = func() any { return cur }
+		var evals int64
+		w.Done = func() { r.Evaluations.Add(evals); r.Nontrivial.Add(evals) }
+		dec := jsontext.NewDecoder(bytes.NewReader(nil))
+		base := jsontext.NewDecoder(bytes.NewReader(nil))
+		return func(u int) {
+			in := []byte(docs[units[u].doc])
+			sc := Sched{Chunk: units[u].chunk}
+			ntok := countTokens(in)
+			for _, op := range "TV" {
+				for n := 1; n <= ntok; n++ {
+					m := refjson.NewDecModel(in, refjson.Opts{})
+					rd := &reader{data: in, s: sc}
+					dec.Reset(rd)
+					ok := true
+					for i := 0; i < n && ok; i++ {
+						// walk by tokens; the last call is `op` (a token or a whole value)
+						if i == n-1 && op == 'V' {
+							_, has, closer := m.Value()
+							if !has || closer {
+								ok = false
+								break
+							}
+							if _, err := dec.ReadValue(); err != nil {
+								ok = false
+							}
+						} else {
+							if _, has := m.Token(); !has {
+								ok = false
+								break
+							}
+							if _, err := dec.ReadToken(); err != nil {
+								ok = false
+							}
+						}
+					}
+					if !ok {
+						continue
+					}
+					evals++
+					cur = Case{Input: in, Program: fmt.Sprintf("%d tokens then observe (last call %c)", n, op), Sched: sc}
+					var msg string
+					func() {
+						defer func() {
+							if p := recover(); p != nil {
+								msg = fmt.Sprintf("library panic: %v", p)
+							}
+						}()
+						if got, want := string(dec.StackPointer()), m.Pointer(); got != want {
+							msg = fmt.Sprintf("after %d unobserved calls StackPointer = %q, reference model %q", n, got, want)
+						}
+					}()
+					if msg != "" {
+						r.Violation(fmt.Sprintf("%s|sparse|doc%d|chunk%d|%c|n=%d", keyPrefix, units[u].doc, sc.Chunk, op, n), msg, cur, nil)
+					}
+					w.Beat()
+				}
+			}
+			// error pointers of truncated / corrupted documents: token walk and value read, vs whole-input decoding
+			for cut := 1; cut < len(in); cut++ {
+				for _, corrupt := range []bool{false, true} {
+					bad := append([]byte(nil), in[:cut]...)
+					if corrupt {
+						bad = append(bad, '!')
+					}
+					for _, op := range "TV" {
+						run := func(d *jsontext.Decoder) (key string) {
+							defer func() {
+								if p := recover(); p != nil {
+									key = fmt.Sprintf("library panic: %v", p)
+								}
+							}()
+							var err error
+							if op == 'V' {
+								d.ReadToken()
+								d.ReadToken()
+								_, err = d.ReadValue()
+							} else {
+								for err == nil {
+									_, err = d.ReadToken()
+								}
+							}
+							return errKey(err)
+						}
+						base.Reset(bytes.NewBuffer(bad))
+						want := run(base)
+						dec.Reset(&reader{data: bad, s: sc})
+						got := run(dec)
+						evals++
+						if got != want {
+							cur = Case{Input: bad, Program: fmt.Sprintf("error pointer (%c)", op), Sched: sc}
+							r.Violation(fmt.Sprintf("%s|sparse-err|doc%d|chunk%d|%c|cut=%d|%v", keyPrefix, units[u].doc, sc.Chunk, op, cut, corrupt), fmt.Sprintf("final error differs: whole input %s, this reader %s", want, got), cur, nil)
+						}
+					}
+				}
+				w.Beat()
+			}
+		}
+	})
+	r.Sample(map[string]any{"family": "sparse-pointer", "document": docs[0][:80] + "...", "observe": "StackPointer only after N calls, for every N; error pointer of every truncation"})
+	r.Bound("sparse observation: %d documents of %d..%d bytes x 4 reader chunkings x every prefix length N (pointer observed only after N calls) x every truncation/corruption point (error key vs whole-input decoding)", len(docs), len(docs[0]), len(docs[len(docs)-2]))
+}
+
+// surrogateSplits: documents with escaped surrogate pairs under ALL cut sets.
+func surrogateSplits(r *evid.Run) {
+	docs := []string{`["\ud83d\udc4d"]`, `"\uD800\uDC00"`, `{"\udbff\udfff":1}`, `"\ud800\udcff"`, `"\ud83d\ude00x"`, `"\ud800\u0041"`, `"\ud800\ud800"`, `"\udc00"`}
+	enum.Parallel(r, len(docs), func(w *enum.Worker) func(int) {
+		x := newRunner()
+		w.Describe = func() any { return x.cur }
+		var evals int64
+		w.Done = func() { r.Evaluations.Add(evals); r.Nontrivial.Add(evals) }
+		return func(u int) {
+			in := []byte(docs[u])
+			n := len(in)
+			for _, p := range []string{"", "V", "S", "PV"} {
+				base := x.baseline(in, p)
+				x.cur = Case{Input: in, Program: p}
+				if m := model(in, p, base, refjson.Opts{}); m != "" {
+					report(r, x.cur, "whole-input decoding vs reference model: "+m)
+				}
+				for c := uint64(0); c < 1<<uint(n-1); c++ {
+					sc := Sched{Cuts: c, DataEOF: c&1 != 0}
+					x.cur.Sched = sc
+					evals++
+					if m := x.chunked(in, p, sc, base); m != "" {
+						report(r, x.cur, m)
+					}
+				}
+				w.Beat()
+			}
+		}
+	})
+	r.Bound("escaped surrogate pairs: %d documents x ALL 2^(n-1) cut sets x 4 programs", len(docs))
 }
 
 func countTokens(b []byte) int {
@@ -655,11 +830,11 @@ func countTokens(b []byte) int {
 
 // boundarySweeps places an interesting token at every offset around every internal buffer size.
 func boundarySweeps(r *evid.Run) {
-	sizes := []int{64, 128}
+	sizes := []int{64, 128, 192}
 	if r.Tier == "thorough" {
 		sizes = []int{64, 128, 256, 512, 1024, 2048, 4096, 8192}
 	}
-	tokens := []string{`"👍"`, `"éx\n"`, "\"\xf0\x9f\x98\x80\"", `-12.5e+10`, `0`, `false`, `null`, `{"nameA":[1,{"k":"v"}]}`, `{"a":{"b":{"c":[0,"𐀀"]}}}`, `[01]`, `"\udc4d"`, `{"a":1,"a":2}`, `[1,2`, "\"\xed\xa0\x80\""}
+	tokens := []string{`"\ud83d\udc4d"`, `"\uD800\uDCfF"`, `"👍"`, `"éx\n"`, "\"\xf0\x9f\x98\x80\"", `-12.5e+10`, `0`, `false`, `null`, `{"nameA":[1,{"k":"v"}]}`, `{"a":{"b":{"c":[0,"𐀀"]}}}`, `[01]`, `"\udc4d"`, `{"a":1,"a":2}`, `[1,2`, "\"\xed\xa0\x80\""}
 	type unit struct {
 		size, tok, hist int
 	}
@@ -849,3 +1024,14 @@ func semKey(err error) string {
 	}
 	return errKey(err)
 }
+
+// CheckPositions runs program on the whole input and compares every call's observables
+// (offsets, depth, index, pointer, token/value) with the reference decoder model. Used by C16.
+func CheckPositions(in []byte, program string) string {
+	x := newRunner()
+	base := x.baseline(in, program)
+	return model(in, program, base, refjson.Opts{})
+}
+
+// Programs exposes the program enumerator.
+func Programs(n, dev int, ops string) []string { return programs(n, dev, ops) }
